@@ -404,6 +404,48 @@ Lemma seval_conds_cons cf v e r fr g : seval_conds cf funs clos vs fn v (ACons e
   end.
 Proof. reflexivity. Qed.
 
+Lemma seval_calln cf f a xs b fr g : seval cf funs clos vs fn (ECallN f a xs b) fr g =
+  match find_fun funs f with
+  | None => Res (EX (err "undefined function")) fr g
+  | Some d =>
+      match seval_args cf funs clos vs fn a fr g with
+      | Res (inl pvs) fr g =>
+          match seval_nargs cf funs clos vs fn (named_ok_impl (fparams d) pvs) xs [] b fr g with
+          | Res (inl nvs) fr g =>
+              match arrange_impl (fparams d) pvs nvs with
+              | Some full =>
+                  match cf (CFun f) full g with
+                  | Some (o, g') => Res o fr g'
+                  | None => Fuel
+                  end
+              | None => Res (EX (err "argument not passed")) fr g
+              end
+          | Res (inr x) fr g => Res (EX x) fr g
+          | Fuel => Fuel
+          end
+      | Res (inr x) fr g => Res (EX x) fr g
+      | Fuel => Fuel
+      end
+  end.
+Proof. reflexivity. Qed.
+
+Lemma seval_nargs_nil cf ok xs seen fr g : seval_nargs cf funs clos vs fn ok xs seen ANil fr g = Res (inl seen) fr g.
+Proof. reflexivity. Qed.
+
+Lemma seval_nargs_cons cf ok xs seen e r fr g : seval_nargs cf funs clos vs fn ok xs seen (ACons e r) fr g =
+  match xs with
+  | [] => Res (inl seen) fr g
+  | x :: xr =>
+      match seval cf funs clos vs fn e fr g with
+      | Res (EV v) fr g =>
+          if ok x seen then seval_nargs cf funs clos vs fn ok xr (seen ++ [(x, v)])%list r fr g
+          else Res (inr (err "named parameter")) fr g
+      | Res (EX w) fr g => Res (inr w) fr g
+      | Fuel => Fuel
+      end
+  end.
+Proof. reflexivity. Qed.
+
 Lemma seval_idx cf x i fr g : seval cf funs clos vs fn (EIdx x i) fr g =
   match seval cf funs clos vs fn i fr g with
   | Res (EV iv) fr g => Res (EV (arr_get (srd vs fn x fr g) iv)) fr g
